@@ -346,6 +346,18 @@ class _History:
         if spec["r"][0] == 0.0:
             self.ctx.cls("atom:r0-shell")
 
+    def step_convert(self, st_):
+        """size -> degree resolution for one method; the same size request through another method earlier in the
+        process must not matter (anything the library remembers about sizes has to be remembered per method)."""
+        from grid.angular import AngularGrid
+
+        method, req = st_["method"], int(st_["req"])
+        want = dl.degree_of_size(method, dl.resolve_size(method, req))
+        got = AngularGrid.convert_angular_sizes_to_degrees(np.array([req, req]), method)
+        if [int(g) for g in got] != [want, want]:
+            self.ctx.fail("size-to-degree-depends-on-history", f"convert_angular_sizes_to_degrees([{req},{req}], {method!r}) = {list(got)}, shipped table says {want}")
+        self.ctx.cls("op-detail:convert:" + method)
+
     def step_preset(self, st_):
         """AtomGrid.from_preset with the DEFAULT radial grid (rgrid=None): everything the library derives from its
         tables - the radial grid too - is handed to the caller, who may edit it in place; a later build of the same
@@ -676,6 +688,7 @@ class _History:
             "tf_call": self.step_tf_call,
             "coul": self.step_coul,
             "preset": self.step_preset,
+            "convert": self.step_convert,
         }
         for i, st_ in enumerate(steps):
             self.touched = []
@@ -777,6 +790,7 @@ _S_TFCALL = st.fixed_dictionaries(
     }
 )
 _S_PRESET = st.fixed_dictionaries({"op": st.just("preset"), "z": st.sampled_from([1, 6, 8]), "preset": st.sampled_from(["coarse", "medium"])})
+_S_CONVERT = st.fixed_dictionaries({"op": st.just("convert"), "method": st.sampled_from(METHODS), "req": st.sampled_from([6, 20, 50, 100, 110, 170])})
 _S_COUL = st.fixed_dictionaries({"op": st.just("coul"), "el": st.sampled_from(ELEMENTS), "npint": st.booleans()})
 
 
@@ -799,7 +813,7 @@ def _with_prefix(prefix, step, min_size, max_steps):
 
 
 def strat_angular(max_steps):
-    step = _weighted((_S_ANG, 3), (_S_EDIT, 5), (_S_ATOM, 2), (_S_SHELL, 2), (_S_ANGINT, 1), (_S_SPL, 1), (_S_MOL, 1), (_S_PRESET, 2))
+    step = _weighted((_S_ANG, 3), (_S_EDIT, 5), (_S_ATOM, 2), (_S_SHELL, 2), (_S_ANGINT, 1), (_S_SPL, 1), (_S_MOL, 1), (_S_PRESET, 2), (_S_CONVERT, 2))
     prefix = st.one_of(st.tuples(_S_ANG), st.tuples(_S_ATOM), st.tuples(_S_ANG, _S_ATOM), st.tuples(_S_ATOM, _S_SHELL), st.tuples(_S_MOL))
     return _case(_with_prefix(prefix, step, 3, max_steps))
 
